@@ -100,7 +100,7 @@ def mutate_recipe(r, desc, rec):
 
 
 # ------------------------------------------------------------------ description -> Spec.MetaSpec.mdesc
-PT = {"str": "TStr", "int": "TInt", "bool": "TBool", "float": "TFloat", "Decimal": "TDecimal", "QName": "TQName",
+PT = {"object": "TObject", "str": "TStr", "int": "TInt", "bool": "TBool", "float": "TFloat", "Decimal": "TDecimal", "QName": "TQName",
       "hex": "TBytes", "b64": "TBytes", "XmlDate": "TXmlDate", "XmlTime": "TXmlTime", "XmlDateTime": "TXmlDateTime",
       "XmlDuration": "TXmlDuration", "XmlPeriod": "TXmlPeriod"}
 KIND = {"Text": "KText", "Element": "KElement", "Attribute": "KAttribute", "Wildcard": "KWildcard",
